@@ -132,6 +132,8 @@ type GhostSpec struct {
 	Params  []Param
 	Ret     string
 	PkgPath string
+	// InitZero: a newly allocated object starts with the zero ghost value (`ghost g(x T) U initzero`)
+	InitZero bool
 }
 type LemmaSpec struct {
 	Name     string
@@ -834,7 +836,12 @@ func parseSpecText(file, pkgPath, src string, sp *Specs) (err error) {
 			name := p.ident()
 			params := p.parseParams()
 			ret := p.parseType()
-			sp.Ghosts[name] = &GhostSpec{name, params, ret, pkgPath}
+			g := &GhostSpec{Name: name, Params: params, Ret: ret, PkgPath: pkgPath}
+			if p.isId("initzero") {
+				p.next()
+				g.InitZero = true
+			}
+			sp.Ghosts[name] = g
 		case "axiom":
 			name := p.ident()
 			var params []Param
